@@ -159,4 +159,39 @@ base_window = _win_protocol(WN + "BaseWindow.__enter__", "BaseWindow", {})
 # callee forms used by FullscreenWindow's super() calls: the real bodies again (inlined through their AST)
 fullscreen_window = _win_protocol(WN + "FullscreenWindow.__enter__", "FullscreenWindow", dict(fullscreen_ctx=ObjT("FullscreenCtx", {})))
 
-PROTOCOLS = [nonblocking, termmode, cbreak, replaced_sigint, input_ctx, nonblocking_read, send, base_window, fullscreen_window]
+# blessed capabilities that take arguments (assumed: they only produce text for the terminal)
+for _cap in ("move_x", "move", "move_down", "clear_eos", "clear_eol"):
+    Contract("ext:BlessedTerminal." + _cap, "C12", ["self", "*args"], shapes=[], result=lambda a, st: __import__("pyvc.values", fromlist=["OpaqueV"]).OpaqueV("capability text"))
+
+
+def _caw_term():
+    return ObjT("BlessedTerminal", dict(hide_cursor=OSM.HIDE, normal_cursor=OSM.NORMAL, move_down="\n", clear_eos="\x1b[J", clear_eol="\x1b[K"))
+
+
+def _caw_restored(a, r):
+    st = a.final_state
+    e = st.ghost["os.entry"]
+    out = []
+    if a.outcome[0] != "return":
+        out.append(("no_exception_escapes", False))
+    hide = a.self.hide_cursor
+    out.append(("cursor_visible_again", same(st.ghost["os.cursor"], True) if hide is True else same(st.ghost["os.cursor"], e["os.cursor"])))
+    out.append(("alternate_screen_not_entered", same(st.ghost["os.alt"], e["os.alt"])))
+    for k in ("os.tty", "os.flags", "os.sigint", "os.wakeup", "os.fds"):
+        out.append((f"restored.{k.split('.')[1]}", same(st.ghost[k], e[k])))
+    return out
+
+
+import contracts.window  # noqa: F401  (assumed contract of get_cursor_position)
+cursor_aware_window = Contract(
+    WN + "CursorAwareWindow.__enter__#protocol", "C12", ["self"], kind="method",
+    shapes=[Shape(f"hide{int(h)}_keep{int(k)}", dict(self=ObjT("CursorAwareWindow", dict(
+        hide_cursor=h, keep_last_line=k, _use_blessed=False, in_stream=STREAM, t=_caw_term(), cbreak=ConstT(None), top_usable_row=IntT(),
+        _orig_top_usable_row=IntT(), another_sigwinch=BoolT(), in_get_cursor_diff=False, ghost_reported_row=0, ghost_moved=IntT(), ghost_queries=IntT(0)))))
+            for h in (True, False) for k in (True, False)],
+    ensures=_caw_restored)
+cursor_aware_window.then = ["CursorAwareWindow.__exit__"]
+cursor_aware_window.setup = _setup
+cursor_aware_window.inline = {"Cbreak": "termhelpers:Cbreak", "Termmode": "termhelpers:Termmode"}
+
+PROTOCOLS = [cursor_aware_window, nonblocking, termmode, cbreak, replaced_sigint, input_ctx, nonblocking_read, send, base_window, fullscreen_window]
